@@ -30,6 +30,7 @@ INF = math.inf
 
 class _Special:
     erf = staticmethod(AD.erf)
+    erfc = staticmethod(AD.erfc)
     exp1 = staticmethod(AD.exp1)
     gamma = staticmethod(AD.gamma)
     gammaincc = staticmethod(AD.gammaincc)
